@@ -132,6 +132,12 @@ func (c *BaseClient) Subscribe(ctx context.Context, q Query, clientType ...strin
 		}
 		return impl, nil
 	}
+	// A new Subscribe re-opens the client. Do it before connecting, so that a
+	// Close arriving while the connection is being set up is not forgotten.
+	c.mu.Lock()
+	c.closed = false
+	c.mu.Unlock()
+
 	impl, err := getFirst(ctx, clientType, q, fn)
 	if err != nil {
 		return err
@@ -143,8 +149,13 @@ func (c *BaseClient) Subscribe(ctx context.Context, q Query, clientType ...strin
 		c.clientImpl.Close()
 	}
 	c.clientImpl = impl
-	c.closed = false
+	closed := c.closed
 	c.mu.Unlock()
+	if closed {
+		// Closed while connecting: do not start streaming.
+		impl.Close()
+		return nil
+	}
 
 	return c.run(impl)
 }
